@@ -13,6 +13,8 @@
 (*            exactly t columns and t paths, path j opens leaf              *)
 (*            Index(bytes_j) = (sum bytes_j[k] * 256^(len-k)) mod n_ext,    *)
 (*            every index < n_ext, bytes per index = ceil(bitlen(n_ext)/8). *)
+(*            t is the oracle's count for the DECLARED security parameter   *)
+(*            and distance, which the key must report unchanged (ParamsOK). *)
 (* One step per record; the verdict of every record is printed.             *)
 (***************************************************************************)
 EXTENDS FixedPoint, Json, IOUtils
@@ -35,7 +37,11 @@ RECURSIVE BitLen(_)
 BitLen(n) == IF n = 0 THEN 0 ELSE 1 + BitLen(n \div 2)
 NumBytes(n) == (BitLen(n) + 7) \div 8
 
+\* the key reports the declared security parameter and the declared relative distance of its code
+\* (dlam, dd0/dd1: from the constructor arguments or the scheme's published defaults; t was computed from them)
+ParamsOK(o) == o.lam = o.dlam /\ o.d0 * o.dd1 = o.d1 * o.dd0
 ShapeOK(o) ==
+  /\ ParamsOK(o)
   /\ o.ncols = o.t /\ o.npaths = o.t
   /\ Len(o.leaf) = o.t /\ Len(o.bytes) = o.t
   /\ \A k \in 1..o.t :
